@@ -17,6 +17,7 @@ import (
 	"github.com/linuxboot/fiano/pkg/uefi"
 	"github.com/linuxboot/fiano/pkg/visitors"
 	. "verifharness/common"
+	"verifharness/uefigen"
 	"verifharness/uefiops"
 )
 
@@ -30,6 +31,8 @@ type EOp struct {
 	Target string // GUID text, UI name or volume name
 	Data   []byte // ins: serialised file; pe: new PE32 body
 	RO     string // ro: visitor name
+
+	Spec *uefigen.File // ins: the generator's spec of Data (not part of the token)
 }
 
 func (o EOp) Token() string {
@@ -199,6 +202,23 @@ func OpEdit(args []string) string {
 		return "ok " + H(r.Out)
 	}
 	return r.Stage
+}
+
+// editvalid <img> <op>... -> "ok <0|1>" (verdict of the independent reader on the saved bytes) or
+// the failing stage; the model side applies Model/Valid.v to the model's bytes
+func OpEditValid(args []string) string {
+	ops, ok := ParseTokens(args[1:])
+	if !ok {
+		return "harness-error bad-op-token"
+	}
+	r := RunEdit(UnH(args[0]), ops)
+	if r.Stage != "ok" {
+		return r.Stage
+	}
+	if ValidImage(r.Out) == "" {
+		return "ok 1"
+	}
+	return "ok 0"
 }
 
 // find <img> <fvp 0|1> <text> -> "ok F:<guid>;V:<name>;..." (Find.Matches in order)
@@ -454,7 +474,7 @@ func PGuid(args []string) string {
 func RegisterAll() {
 	uefiops.RegisterAll()
 	for k, v := range map[string]Op{
-		"edit": OpEdit, "find": OpFind, "valid": OpValid, "guidstr": OpGuidStr, "guidparse": OpGuidParse,
+		"edit": OpEdit, "editvalid": OpEditValid, "find": OpFind, "valid": OpValid, "guidstr": OpGuidStr, "guidparse": OpGuidParse,
 		"p_c02": PC02, "p_c03": PC03, "p_c03_ro": PC03RO, "p_guid": PGuid,
 	} {
 		Register(k, v)
